@@ -602,10 +602,11 @@ pub fn gen_s(u: &mut Chooser, depth: usize) -> S {
         12 => S::Struct((0..u.below(4)).map(|_| (u.below(8) as u8, if u.chance(1, 5) { S::SkippedField } else { gen_s(u, d) })).collect()),
         13 => S::StructVariant(u.below(8) as u8, (0..u.below(4)).map(|_| (u.below(8) as u8, if u.chance(1, 5) { S::SkippedField } else { gen_s(u, d) })).collect()),
         14 => {
-            // durations within +-2^63 ns
-            let ns = match u.below(3) {
+            let ns = match u.below(4) {
                 0 => *u.pick(&[0i128, 1, -1, 1_500_000_000, -1_500_000_000, i64::MAX as i128, i64::MIN as i128 + 1, 999_999_999, -999_999_999, -1_000_000_000, -5_400_000_000_000, -604_800_000_000_000, 1_000_000_000, -2_000_000_000, 3_000_000_000_000_000_000, -3_000_000_000_000_000_000]),
                 1 => (u.range(-100_000, 100_000) as i128) * 1_000_000_000,
+                // beyond 64-bit nanoseconds (chrono holds up to +-i64::MAX milliseconds): the wrapper still carries the duration it was given
+                2 => *u.pick(&[9_223_372_036_854_775_808i128, -9_223_372_036_854_775_810, 9_223_372_037_000_000_001, -9_223_372_037_145_224_190, 31_556_952_000_000_000_000_123, -31_556_952_000_000_000_000_123, 9_223_372_036_854_775_807_000_000, -9_223_372_036_854_775_807_000_000]),
                 _ => u.log_i64() as i128,
             };
             match V::dur_ns(ns) {
